@@ -228,5 +228,15 @@ func main() {
 					PDUSessionResourceReleaseCommandTransfer: tp.GetPDUSessionResourceReleaseCommandTransfer()}}})
 		}))
 	}
+	// the PLMN follows every further NG Setup of the same process (a second and a third announcement, also in the quick tier)
+	for k := 0; k < 2; k++ {
+		setup()
+		for j := 0; j < 3; j++ {
+			n := nas(nasLens[rg.Intn(len(nasLens))])
+			ran := pick(ranIds)
+			a := ev.M{"ran": te.Num(ran), "nas": ev.Ints(n), "plmn": ev.Ints(curPlmn)}
+			r.emit("GetInitialUEMessage", a, func() ([]byte, error) { return tglib.GetInitialUEMessage(ran, n, "") })
+		}
+	}
 	_ = rand.Int
 }
